@@ -19,7 +19,7 @@ RULE = ("(a) convection speed +/-10^[-0.5,0.5] x domain length x 1..3 waves x ph
         "exact wave speeds; (c) generated Riemann data / nozzle pressure ratios for the packaged solutions. non-trivial = error above round-off and at least one wave with a jump > 5%; "
         "distinct = distinct canonical JSON")
 ASSUMPTIONS = ["observed-order floors calibrated on the repaired tree (see DESIGN.md, C04): unlimited schemes p - 0.15; extrapol1 in [0.7, 1.3]; minmod >= 1.5, van Albada >= 1.7, van Leer >= 1.65, superbee >= 1.1 (all above "
-               "the 0.99 a first-order scheme reaches)", "Riemann: e(2n) <= 1.05 e(n) pairwise (shock-position jitter) and e(4n) <= 0.75 e(n)",
+               "the 0.99 a first-order scheme reaches)", "Riemann: e(2n) <= 1.05 e(n) pairwise (observed <= 0.91 over 3800 calibration cases) and e(4n) <= 0.85 e(n) (observed <= 0.67); problems where a discontinuity moves by less than 5 coarse cells are skipped (pre-asymptotic plateau)",
                "aerokit (third party) is only used through flowdyn.solution"]
 
 K_OF = {"extrapol2": -1.0, "fromm": 0.0, "quick": 0.5, "extrapol3": 1.0 / 3.0, "centered": 1.0}
@@ -168,6 +168,19 @@ def check_riemann(case):
     smax = max(abs(sl), abs(sr), 1e-12)
     T = 0.35 / smax            # the fan fills 70% of the half-width on its faster side
     jumps = [abs(exact.ps / L[2] - 1), abs(exact.ps / R[2] - 1), abs(math.log(R[0] / L[0]))]
+    # a discontinuity that has moved by less than 5 cells of the coarsest mesh is not resolved there: the error is then the sub-cell offset of the
+    # exact position (a plateau, then jitter), not a discretisation error - such problems are outside the asymptotic statement
+    rsl, _u, _p = exact.sample(np.array([sm - 1e-9 * smax]))
+    rsr, _u, _p = exact.sample(np.array([sm + 1e-9 * smax]))
+    slow = []
+    if abs(math.log(float(rsr[0]) / float(rsl[0]))) > 0.05:
+        slow.append(abs(sm) * T)
+    if exact.ps > L[2] * 1.05:
+        slow.append(abs(sl) * T)
+    if exact.ps > R[2] * 1.05:
+        slow.append(abs(sr) * T)
+    if any(0.0 < d < 0.05 for d in slow):
+        raise Skip("a discontinuity moves by less than 5 cells of the coarsest mesh (pre-asymptotic)")
     errs = [_riemann_error(case, n, T, exact) for n in (100, 200, 400)]
     scale_r, scale_p = max(L[0], R[0]), max(L[2], R[2])
     name = case["num"].get("limiter", case["num"]["name"])
@@ -184,7 +197,7 @@ def check_riemann(case):
             continue
         require(e2 <= 1.05 * e1 and e4 <= 1.05 * e2, "riemann-monotone", "%s L1 error does not decrease under refinement: %.4g (100) %.4g (200) %.4g (400) (%s/%s/%s, gamma=%g, pattern %s, L=%r R=%r)"
                 % (which, e1, e2, e4, case["flux"], name, case["integ"], g, exact.pattern(), L, R))
-        require(e4 <= 0.75 * e1, "riemann-converges", "%s L1 error on 400 cells (%.4g) is not below 0.75 x the error on 100 cells (%.4g) (%s/%s/%s, gamma=%g, pattern %s)"
+        require(e4 <= 0.85 * e1, "riemann-converges", "%s L1 error on 400 cells (%.4g) is not below 0.85 x the error on 100 cells (%.4g) (%s/%s/%s, gamma=%g, pattern %s)"
                 % (which, e4, e1, case["flux"], name, case["integ"], g, exact.pattern()))
     return dict(nontrivial=True, labels=labels)
 
